@@ -40,6 +40,7 @@ Inductive xerr :=
 | EBadVersion     (* "XML version must be either 1.0 or 1.1" *)
 | ENoRoot         (* "XML doc tuples must have a root field" *)
 | ENotDocTuple    (* "XML outputs must be a Tuple" *)
+| ERootNotElement (* "XML doc root must be an element (a tuple with a name)" *)
 | EBadChar.       (* "XML text and attribute values can not contain control characters" (get_xml_chars) *)
 
 Inductive xres (A : Type) := XOk (a : A) | XErr (e : xerr).
@@ -213,6 +214,13 @@ Definition version_of (s : option bytes) : xres xver :=
               else if bytes_eqb t (b "1.1") then XOk V11 else XErr EBadVersion
   end.
 
+(* the root must be a tuple with some field called `name` (whatever its value) *)
+Definition root_is_element (v : val) : bool :=
+  match v with
+  | VTuple fs => existsb (fun kv => bytes_eqb (fst kv) (b "name")) fs
+  | _ => false
+  end.
+
 Definition to_xml_r (d : val) : xres (list xevent) :=
   match d with
   | VTuple fs =>
@@ -221,6 +229,7 @@ Definition to_xml_r (d : val) : xres (list xevent) :=
     | None => XErr ENoRoot
     | Some n =>
       xbind (version_of (d_version st)) (fun ver =>
+      if negb (root_is_element n) then XErr ERootNotElement else
       xbind (write_node n) (fun evs =>
       XOk (EStartDoc ver (d_encoding st) (d_standalone st) :: evs)))
     end)
@@ -911,6 +920,7 @@ Definition tree_of_doc (d : val) : option xdoc :=
       match version_of (match field_last (b "version") fs with Some (VStr s) => Some s | _ => None end) with
       | XErr _ => None
       | XOk ver =>
+        if negb (root_is_element root) then None else
         Some (mkdoc (Some (mkdecl ver
                 (match field_last (b "encoding") fs with Some (VStr s) => s | _ => default_enc end)
                 (match field_last (b "standalone") fs with Some (VBool x) => Some x | _ => None end)))
@@ -1099,6 +1109,11 @@ Definition decl_wf (d : option xdecl) : bool :=
 Definition xml_tree_wf (d : xdoc) : bool :=
   decl_wf (x_decl d) &&
   match x_body d with [XElem _ _ _ _ as e] => node_wf [] e | _ => false end.
+
+(* the same without asking that the body be one element: for trees of accepted documents that
+   is a consequence (Xml_Lemmas.to_xml_body_element) *)
+Definition doc_tree_wf (d : xdoc) : bool :=
+  decl_wf (x_decl d) && forallb (node_wf []) (x_body d).
 
 (* names only: what C12 assumes of a document *)
 Fixpoint names_ok (n : xnode) : bool :=
